@@ -463,6 +463,7 @@ pub fn run(o: &Opts) -> Report {
         let (st, ft) = crate::vp8lgen::stream(&mut rng, gw, gh);
         for t in &ft.transforms { rep.hit(&format!("gen_transform_{}", ["predictor", "colour", "subtract_green", "colour_indexing"][*t as usize])); }
         if ft.transforms.len() >= 3 { rep.hit("gen_three_or_more_transforms"); }
+        if ft.directed_flat_group > 0 { rep.hit("gen_directed_flat_group_with_tiny_cache"); }
         if ft.cache_bits > 0 { rep.hit("gen_colour_cache"); }
         if ft.groups > 1 { rep.hit("gen_meta_groups"); }
         if ft.max_len >= 15 { rep.hit("gen_code_depth_15"); } else if ft.max_len > 10 { rep.hit("gen_code_depth_11_to_14"); }
